@@ -201,11 +201,15 @@ func c05(c *core.Ctx) {
 				if lok && lo == *hdrlen && hiField {
 					le, ge := false, false
 					for _, f := range ssax.FactsAt(r2) {
-						if loadedField(f.X).f == msgSize && loadedField(f.Y).f == rbs && (f.Op == token.LEQ || f.Op == token.LSS) {
+						x, y, op := f.X, f.Y, f.Op
+						if loadedField(y).f == msgSize {
+							x, y, op = y, x, ssax.SwapOp(op) // written as `bound op MessageSize`
+						}
+						if loadedField(x).f == msgSize && loadedField(y).f == rbs && (op == token.LEQ || op == token.LSS) {
 							le = true
 						}
-						if loadedField(f.X).f == msgSize {
-							if k, ok := ssax.ConstInt(f.Y); ok && ((f.Op == token.GEQ && k >= *hdrlen) || (f.Op == token.GTR && k >= *hdrlen-1)) {
+						if loadedField(x).f == msgSize {
+							if k, ok := ssax.ConstInt(y); ok && ((op == token.GEQ && k >= *hdrlen) || (op == token.GTR && k >= *hdrlen-1)) {
 								ge = true
 							}
 						}
